@@ -18,6 +18,15 @@ impl<'a> Src<'a> {
         Src { words, pos: 0, direct }
     }
 
+    /// The whole underlying choice vector (for handing the same case to a helper process).
+    pub fn all_words(&self) -> &[u32] {
+        self.words
+    }
+
+    pub fn is_direct(&self) -> bool {
+        self.direct
+    }
+
     pub fn used(&self) -> usize {
         self.pos
     }
